@@ -24,6 +24,7 @@ import (
 	"encoding/json"
 	"flag"
 	"fmt"
+	"os"
 	"path/filepath"
 	"reflect"
 	"regexp"
@@ -228,17 +229,16 @@ var fileCreateWrites = []*regexp.Regexp{
 	regexp.MustCompile(`^json\.fileControl\.`),
 	regexp.MustCompile(`^json\.fileADVControl\.`),
 	regexp.MustCompile(`^text\.(FC|FVC)$`),
-	regexp.MustCompile(`^json\.(batches|IATBatches)\.(batchHeader|IATBatchHeader|batchControl|advBatchControl)\.batchNumber$`),
+	regexp.MustCompile(`^json\.(batches|IATBatches|NotificationOfChange|ReturnEntries)\.(batchHeader|IATBatchHeader|batchControl|advBatchControl)\.batchNumber$`),
 	regexp.MustCompile(`^text\.[BI]\.(H|C|VC)$`),
 }
 
 // Batch.build through shared *EntryDetail pointers (Model/Offsets.v retrace; addenda sequence numbers)
 var batchBuildEntryWrites = []*regexp.Regexp{
-	regexp.MustCompile(`^json\.(batches|IATBatches)\.(entryDetails|IATEntryDetails)\.traceNumber$`),
-	regexp.MustCompile(`^json\.(batches|IATBatches)\.(entryDetails|IATEntryDetails)\.(addendaRecordIndicator|addendaRecords)$`),
-	regexp.MustCompile(`^json\.(batches|IATBatches)\.(entryDetails|IATEntryDetails)\.addenda\w*\.(entryDetailSequenceNumber|sequenceNumber|traceNumber)$`),
-	regexp.MustCompile(`^json\.(batches|IATBatches)\.(entryDetails|IATEntryDetails)\.category$`),
-	regexp.MustCompile(`^text\.[BI]\.E`),
+	regexp.MustCompile(`^json\.(batches|IATBatches|NotificationOfChange|ReturnEntries)\.(entryDetails|IATEntryDetails)\.traceNumber$`),
+	regexp.MustCompile(`^json\.(batches|IATBatches|NotificationOfChange|ReturnEntries)\.(entryDetails|IATEntryDetails)\.addenda\w*\.(entryDetailSequenceNumber|sequenceNumber)$`),
+	regexp.MustCompile(`^json\.(batches|NotificationOfChange|ReturnEntries)\.advEntryDetails\.sequenceNumber$`),
+	regexp.MustCompile(`^text\.[BI]\.[EV]`),
 }
 
 func within(changed []string, sets ...[]*regexp.Regexp) (outside []string) {
@@ -275,16 +275,40 @@ func reqClass(kind string) string {
 }
 
 type librun struct {
-	p       *pools
-	fails   []failure
-	evals   int
-	dist    map[string]int
-	nontr   map[string]bool
-	changes map[string]map[string]int // request kind -> field class -> count
+	p         *pools
+	fails     []failure
+	evals     int
+	dist      map[string]int
+	nontr     map[string]bool
+	changes   map[string]map[string]int // request kind -> field class -> count
+	firsts    map[string][]string       // situation -> first history that showed it
+	replaying bool                      // the history already holds the repeated requests
 }
 
 func (o *librun) fail(key, what string, hist []string) {
 	o.fails = append(o.fails, failure{"fail", key, what, map[string]interface{}{"requests": append([]string{}, hist...), "mode": "lib"}})
+}
+
+func (o *librun) sample(kind string, created bool, changed []string, hist []string) {
+	var lv []string
+	for _, c := range changed {
+		if strings.HasPrefix(c, "json.") && !strings.HasPrefix(c, "json.fileControl.") && !strings.HasPrefix(c, "json.fileADVControl.") {
+			lv = append(lv, c[5:])
+		} else if strings.HasPrefix(c, "json.file") {
+			lv = append(lv, "fileControl")
+		}
+	}
+	sort.Strings(lv)
+	var u []string
+	for i, c := range lv {
+		if i == 0 || lv[i-1] != c {
+			u = append(u, c)
+		}
+	}
+	k := fmt.Sprintf("%s on a file that went through Create=%v: %s", kind, created, strings.Join(u, " "))
+	if _, ok := o.firsts[k]; !ok && len(o.firsts) < 200 {
+		o.firsts[k] = append([]string{}, hist...)
+	}
 }
 
 func (o *librun) note(kind string, changed []string) {
@@ -348,6 +372,7 @@ func (o *librun) history(g *genState, lines []string, steps int) {
 			if cls == "edit" || cls == "balance" {
 				continue
 			}
+			o.sample(tag, created[ptr], changed, hist)
 			where := "the addressed stored file"
 			if !self {
 				where = "ANOTHER stored file"
@@ -422,7 +447,7 @@ func (o *librun) history(g *genState, lines []string, steps int) {
 			}
 		}
 		// Create twice = Create once: the same create-running request again changes nothing at all
-		if (cls == "create" || cls == "derive") && target != "" && ok && !shared[target] {
+		if (cls == "create" || cls == "derive") && target != "" && ok && !shared[target] && !o.replaying {
 			mid := s.photos()
 			q2 := *q
 			s.run(&q2, true)
@@ -449,7 +474,7 @@ func libMode(args []string) {
 	fs.Parse(args)
 	p := loadPools()
 	tv, jv := classifyPools(p)
-	o := &librun{p: p, dist: map[string]int{}, nontr: map[string]bool{}, changes: map[string]map[string]int{}}
+	o := &librun{p: p, dist: map[string]int{}, nontr: map[string]bool{}, changes: map[string]map[string]int{}, firsts: map[string][]string{}}
 	for _, h := range corpusHistories(*corpus) {
 		o.history(nil, h, len(h))
 	}
@@ -477,10 +502,28 @@ func libMode(args []string) {
 		"kind": "summary", "evaluations": o.evals, "distinct_nontrivial": len(o.nontr),
 		"rule":         "evaluation = one request with all stored objects photographed (JSON tree + record lines) before and after; distinct = (request class, situation) classes reached",
 		"distribution": o.dist, "samples": []interface{}{map[string]interface{}{"classes_seen": classes}},
-		"changes": o.changes,
+		"changes": o.changes, "change_samples": o.firsts,
 	}
 	b, _ := json.Marshal(sum)
 	w.Printf("%s\n", b)
 	w.Close()
 	fmt.Printf("lib: %d histories, %d evaluations, %d failures\n", *n, o.evals, len(o.fails))
+}
+
+// libReplay re-runs one recorded history with the stored objects photographed
+func libReplay(p *pools, reqs []string) {
+	o := &librun{p: p, dist: map[string]int{}, nontr: map[string]bool{}, changes: map[string]map[string]int{}, firsts: map[string][]string{}}
+	o.replaying = true
+	o.history(nil, reqs, len(reqs))
+	for _, l := range reqs {
+		fmt.Println("  " + l)
+	}
+	if len(o.fails) == 0 {
+		fmt.Println("replay: no failure")
+		return
+	}
+	for _, f := range o.fails {
+		fmt.Printf("FAIL %s: %s\n", f.Key, f.What)
+	}
+	os.Exit(1)
 }
